@@ -912,9 +912,14 @@ func (c *Conn) handleStartTLS() {
 	// A chunked transfer that is still open belongs to the old session: make
 	// its delivery fail and wait for it before the session is logged out.
 	c.abortBdat()
-	if session := c.Session(); session != nil {
+	// Take the session away before logging it out: Close (Server.Close runs
+	// it on another goroutine) logs out whatever session it still finds.
+	c.locker.Lock()
+	session := c.session
+	c.session = nil
+	c.locker.Unlock()
+	if session != nil {
 		session.Logout()
-		c.setSession(nil)
 	}
 	c.helo = ""
 	c.didAuth = false
